@@ -6,3 +6,4 @@
 import Theorems.C03
 import Theorems.Typed
 import Theorems.Message
+import Theorems.Enums
